@@ -12,3 +12,5 @@ from . import diff  # noqa
 from . import rewrite_lines  # noqa
 from . import parts  # noqa
 from . import v1version  # noqa
+from . import version_str  # noqa
+from . import config_read  # noqa
